@@ -243,6 +243,17 @@ def run(tier):
         if not rb.violated:
             raise vlib.Infra("non-vacuity: %s not refuted" % b)
         bugs[b] = rb.violated
+    # acknowledgement and cancellation pending at once: the PUBREC of a QoS 2 Publish has been read and dispatched when the
+    # call's context is cancelled (both inside Transport.Write of the PUBLISH); PUBCOMP never comes, so the call must not
+    # report success whichever of the two it looks at first (Acks.tla: OnlyOnOwnAck -- success only after PUBCOMP)
+    rr_ = vlib.run_drive(binary, ["run", "acks", "-j", "1", "-c", "1", "-timeout", "120s"],
+                         stdin=json.dumps({"id": "race", "race": "pubrecAtDeadline", "rounds": 60 if tier == "quick" else 600}) + "\n", timeout=600)
+    race = [json.loads(l) for l in rr_.stdout.splitlines() if l.strip()]
+    if rr_.returncode != 0 or not race or race[0].get("err"):
+        raise vlib.Infra("acks race run failed: %s %s" % (rr_.stdout[-300:], rr_.stderr[-300:]))
+    if race[0].get("raceNil", 0) > 0:
+        verd.witness("OnlyOnOwnAck", "pubrec-at-deadline", "QoS 2 Publish whose PUBREC and cancellation were pending at once reported success in %d of %d rounds; PUBCOMP was never sent"
+                     % (race[0]["raceNil"], race[0]["raceRounds"]), {"scenario": {"race": "pubrecAtDeadline"}, "result": race[0]})
     scs, nsim = scenarios(tier, rng)
     byid = {s["id"]: s for s in scs}
     results, crashes = run_real(binary, scs)
